@@ -43,6 +43,20 @@ def run(tier):
     if M.capped or M.unsupported:
         rep.unprovable("C07.explore", "exploration incomplete: %s" % M.unsupported[:2])
     b = P.body[fn]
+    # record syntax and checksums are the ihex crate's: the text returned is what create_object_file_representation made of the records
+    reprs = [(bb, t) for bb, t, n_, tg in P.call_sites(fn) if MU.callee_names(t)[1] == "ihex::create_object_file_representation"]
+    okx = False
+    if len(reprs) == 1:
+        pay, r_ = None, MU.result_edges(b, reprs[0][0])
+        chx = MU.Chaser(b)
+        for bl in b["blocks"]:
+            for st in bl["stmts"]:
+                if st["k"] == "assign" and st["place"]["local"] == 0 and st["rv"]["k"] == "agg" and st["rv"]["kind"].get("vname") == "Ok" and st["rv"]["ops"]:
+                    locs_, consts_, calls_, places_ = MU.backward_slice(b, [st["rv"]["ops"][0]])
+                    okx = any(MU.callee_names(c)[1] == "ihex::create_object_file_representation" for c in calls_) and \
+                        not any(re.search(r"::(push_str|push|insert|replace|format|write_fmt|truncate|pop)$", MU.callee_names(c)[1]) and "String" in MU.callee_names(c)[0] for c in calls_)
+    rep.ob("C07.records|ihex", okx, "the text of the file is exactly what the ihex crate makes of the record list (record syntax and checksums are the crate's)" if okx else
+           "the HEX text is not simply the ihex crate's rendering of a record list (records are formatted or edited by the repository's own code): that every line is a well-formed record with a valid checksum is not established")
     rl = [i for i, l in enumerate(b["locals"]) if l["name"] == "records"]
     oks = [p for p in paths if p.exit == "Ok"]
     rep.ob("C07.paths", bool(oks) and bool(rl), "record generator has success paths (%d)" % len(oks), kind="unprovable", nontrivial=False)
